@@ -31,10 +31,23 @@ Proof.
   unfold kc in Hk. injection Hk as E1 E2. exists j, x. auto.
 Qed.
 
+(** The look-up as the code performs it ([cse_eff]: a context-free look-up may additionally miss once a twin was
+    recorded under a context) only ever answers less, so the same holds for it, whatever [ctx_exact] is. *)
+Theorem C05_cse_eff_same_context : forall c ops key ctx o,
+  pending_owner_safe (vr c) = true -> ctx_strict (vr c) = true ->
+  cse_eff c (run c ops) key ctx = Some o ->
+  exists j x, getj (run c ops) j = Some x /\ jkey x = key /\ jctx x = ctx /\ jprov x = true.
+Proof.
+  intros c ops key ctx o Hs Hc H. apply (C05_cse_same_context c ops key ctx o Hs Hc).
+  unfold cse_eff in H. destruct (negb (ctx_exact (vr c)) && Nat.eqb ctx 0 && ctx_twin_recorded (run c ops) key);
+    [discriminate|exact H].
+Qed.
+
 (** As shipped (filter applied only when the job has a context): job 0 runs under context 1 and
     records 7; job 1, the same call with the empty context, is served 7 by the CSE lookup. *)
 Definition c05_variant : variant :=
-  {| release_if_holds := true; recheck_on_skip := true; ctx_strict := false; pending_owner_safe := true |}.
+  {| release_if_holds := true; recheck_on_skip := true; ctx_strict := false; pending_owner_safe := true;
+     ctx_exact := true |}.
 Definition c05_cfg (v : variant) : config := {| limit_of := fun _ => 1%Z; dryrun := false; vr := v |}.
 Definition c05_witness : list op :=
   [ ONew 5 1 [] false true false; OPop 0 0 CMiss; OComplete 0 true 0%Z; OPop 1 0 CMiss;
@@ -55,3 +68,4 @@ Proof. vm_compute. split; reflexivity. Qed.
 Print Assumptions C05_collapse_same_context.
 Print Assumptions C05_cse_same_context.
 Print Assumptions C05_refuted_as_shipped.
+Print Assumptions C05_cse_eff_same_context.
